@@ -235,20 +235,20 @@ def gen_root(rng, cls, R, D, Dx=None, variant=None, cond_max=1e2, scale=1.0):
         kw["M"] = rng.normal((R, Dy, Dx), 0.7)
         if rng.coin(0.8):
             kw["b"] = rng.normal((R, Dy))
-        variant = variant or rng.choice(["sigma", "lambda", "all"])
-        if variant in ("sigma", "all"):
+        variant = variant or rng.choice(["sigma", "lambda", "sigma_lambda", "all"])
+        if variant in ("sigma", "all", "sigma_lambda"):
             kw["Sigma"] = Sig
-        if variant in ("lambda", "all"):
+        if variant in ("lambda", "all", "sigma_lambda"):
             kw["Lambda"] = np.linalg.inv(Sig)
         if variant == "all":
             kw["ln_det_Sigma"] = np.linalg.slogdet(Sig)[1]
     elif cls in IDENT:
         diag = cls == "ConditionalIdentityDiagGaussianPDF"
         Sig = rng.spd(R, D, cond_max, diag=diag)
-        variant = variant or rng.choice(["sigma", "lambda", "all"])
-        if variant in ("sigma", "all"):
+        variant = variant or rng.choice(["sigma", "lambda", "sigma_lambda", "all"])
+        if variant in ("sigma", "all", "sigma_lambda"):
             kw["Sigma"] = Sig
-        if variant in ("lambda", "all"):
+        if variant in ("lambda", "all", "sigma_lambda"):
             kw["Lambda"] = np.linalg.inv(Sig)
         if variant == "all":
             kw["ln_det_Sigma"] = np.linalg.slogdet(Sig)[1]
@@ -570,6 +570,12 @@ def exec_step(w, rec, i):
             before[sid] = describe(s)
             if "imm" in w.invariants and not (rec["op"] in MUTATORS and sid == rec["a"]):
                 snaps[sid] = ref.snapshot(s.obj)
+        if "imm" in w.invariants and rec["op"] in MUTATORS:
+            # an in-place update may change its target only: every other live object (earlier-derived
+            # objects, operands of earlier operations) must stay bit-identical - detects aliasing
+            for sid, s in w.slots.items():
+                if sid != rec["a"] and sid not in snaps and not s.tainted and s.kind != "trunc":
+                    snaps[sid] = ref.snapshot(s.obj)
         ctx = ctx_of(w, rec, before)
         prod_pre = _prod_pre(w, rec, i) if "prod" in w.invariants and rec["op"] in ("multiply", "product") else None
     try:
@@ -612,7 +618,7 @@ def exec_step(w, rec, i):
         guarded(lambda: ref.envelope(s.obj, s.kind), [s])
 
     for sid, sn in snaps.items():
-        w.stats["chk.I_imm"] += guarded(lambda: ref.I_imm(w.slots[sid].obj, sn, where=where + f" operand {sid}"), [w.slots[sid]])
+        w.stats["chk.I_imm"] += guarded(lambda: ref.I_imm(w.slots[sid].obj, sn, where=where + (f" operand {sid}" if sid in ops else f" bystander {sid}")), [w.slots[sid]])
     for sid in ops:
         if "coh" in w.invariants and sid in w.slots and not w.slots[sid].tainted:
             w.stats["chk.I_coh"] += guarded(lambda: ref.I_coh(w.slots[sid].obj, where=where + f" operand {sid}"), [w.slots[sid]])
